@@ -98,9 +98,11 @@ def run(ctx):
 
 def replay(ctx, path):
     obj = json.load(open(path))
-    recs = child(ctx, [obj["hist"]], "r")
-    v = tv.validate(ctx, "HooksTrace", recs)[0]
-    print(json.dumps({"verdict": v, "steps": recs[0]["steps"]}, indent=1))
+    recs = child(ctx, [obj["hist"]] * 3, "r")      # (the position in the batch selects the direct-loader dimension: all three)
+    vs = tv.validate(ctx, "HooksTrace", recs)
+    bad = [k for k in range(3) if vs[k]["v"] != "accepted"]
+    v = vs[bad[0]] if bad else vs[0]
+    print(json.dumps({"verdict": v, "steps": recs[bad[0] if bad else 0]["steps"]}, indent=1))
     if v["v"] != "accepted":
         print(f"VIOLATION property=C12 replay={path}   # {v['v']}")
         return 1
